@@ -93,7 +93,38 @@ type TC struct{ A xa.TA }
 func Wrap(a xa.TA) TC { return TC{a} }
 `
 
+// pl is a plain Go package (no XGoPackage marker) through which types of XGo packages can be reached
+// without importing those packages.
+const plPath = "example.com/verif/pl"
+
+const plSrc = `package pl
+
+import (
+	"example.com/verif/xa"
+	"example.com/verif/xb"
+)
+
+type A = xa.TA
+type B = xb.TB
+
+func GetA() xa.TA { var z xa.TA; return z }
+`
+
+// c15Interloper is an unrelated package that imports every synthetic XGo package directly; with a
+// shared importer it is built between the builds of the case.
+const c15Interloper = `package other
+
+import (
+	"example.com/verif/xa"
+	"example.com/verif/xb"
+	"example.com/verif/xc"
+)
+
+func Touch(a xa.TA, b xb.TB, c xc.TC) {}
+`
+
 func init() {
+	oracle.RegisterSource(plPath, plSrc)
 	oracle.RegisterSource(xaPath, xaSrc)
 	oracle.RegisterSource(xbPath, xbSrc)
 	oracle.RegisterSource(xcPath, xcSrc)
@@ -103,6 +134,10 @@ func init() {
 
 type c15Case struct {
 	Files []string `json:"files"`
+	// ViaPlain: an exported function whose result type is taken from the signature of pl.GetA (a
+	// function of a plain Go package returning a type of the XGo package xa) is declared through the
+	// API: the package mentions xa without ever importing it itself.
+	ViaPlain bool `json:"via_plain,omitempty"`
 }
 
 // c15Build builds the package once; every statement that has a leading comment in the source gets
@@ -144,6 +179,12 @@ func c15Build(c *c15Case, imp types.Importer) (map[string]string, string) {
 	}
 	o := drive.Options{Importer: imp, PkgPath: "example.com/verif/foo", FileNames: names,
 		Setup: func(d *drive.Driver) { d.StmtComments = comments }}
+	if c.ViaPlain {
+		o.Finish = func(d *drive.Driver) {
+			sig := d.Pkg.Import(plPath).Ref("GetA").Type().(*types.Signature)
+			d.Pkg.NewFunc(nil, "ViaPlain", nil, sig.Results(), false).BodyStart(d.Pkg).ZeroLit(sig.Results().At(0).Type()).Return(1).End()
+		}
+	}
 	res := drive.Build(fset, files, srcs, o)
 	if !res.Accepted() {
 		return nil, res.ErrText()
@@ -181,6 +222,10 @@ func c15Eval(c *c15Case, k int, children bool) (sig, msg string, first string) {
 	// one importer shared by all builds, as a compiler driver has
 	shared := oracle.NewImporter()
 	for i := 0; i < k; i++ {
+		if i == 1 {
+			// another package of the same compilation, which imports the XGo packages directly
+			c15Build(&c15Case{Files: []string{c15Interloper}}, shared)
+		}
 		out, e := c15Build(c, shared)
 		if got := outputsKey(out); e != "" || got != want {
 			a, b := firstDiff(want, got)
@@ -259,12 +304,18 @@ func c15Program(t *rapid.T) (*c15Case, map[string]int) {
 	nfiles := rapid.IntRange(1, 3).Draw(t, "nfiles")
 	c := &c15Case{}
 	fnSeq := 0
+	// one case in six reaches XGo packages only through the plain package pl: no file imports them
+	indirectOnly := g.chance("indirect-only", 1, 6)
+	if indirectOnly {
+		g.feats["xgo-packages-reached-only-through-plain-package"]++
+		c.ViaPlain = true
+	}
 	for fi := 0; fi < nfiles; fi++ {
 		var b strings.Builder
 		b.WriteString("package foo\n\nimport (\n")
 		imps := []string{}
 		for _, p := range []string{"fmt", "strings", "strconv", "os", "sort", xaPath, xbPath, xcPath} {
-			if g.chance("import", 2, 3) {
+			if g.chance("import", 2, 3) && !(indirectOnly && strings.HasPrefix(p, "example.com/")) {
 				imps = append(imps, p)
 			}
 		}
@@ -275,7 +326,7 @@ func c15Program(t *rapid.T) (*c15Case, map[string]int) {
 			has[p] = true
 		}
 		// the two same-named XGo packages need explicit names in Go source
-		if g.chance("samename", 1, 2) {
+		if g.chance("samename", 1, 2) && !indirectOnly {
 			fmt.Fprintf(&b, "\txd1 %q\n\txd2 %q\n", xd1Path, xd2Path)
 			has[xd1Path], has[xd2Path] = true, true
 			g.feats["same-named-xgo-dependencies"]++
@@ -301,6 +352,15 @@ func c15Program(t *rapid.T) (*c15Case, map[string]int) {
 			if has[p.path] && g.chance("export", 2, 3) {
 				deps = append(deps, p.typ)
 			}
+		}
+		if g.chance("indirect", 1, 3) || indirectOnly && fi == 0 {
+			// types of XGo packages reached through aliases of a plain package: the XGo package itself
+			// may not be imported by this package at all
+			fmt.Fprintf(&b, "func Indirect%d(a pl.A, b pl.B) {}\n\n", fi)
+			g.feats["exported-signature-reaches-xgo-package-through-plain-package"]++
+			head := b.String()
+			b.Reset()
+			b.WriteString(strings.Replace(head, "import (\n", "import (\n\t\""+plPath+"\"\n", 1))
 		}
 		if len(deps) > 0 {
 			fnSeq++
